@@ -1,7 +1,7 @@
 (* C02 -- the AST says exactly what the source says.  Statements only; proofs in Syntax/ValueProofs.v and Syntax/ParserProofs.v
    (model: Syntax/Lexer.v, Syntax/Parser.v; the keyword table Gen/Keywords.v is regenerated from lexer.rs on every run). *)
 From Coq Require Import List NArith ZArith Bool.
-From SliceV Require Import Syntax.Tokens Syntax.Lexer Syntax.Parser Syntax.ValueProofs Syntax.ParserProofs.
+From SliceV Require Import Syntax.Tokens Syntax.Lexer Syntax.LexerProofs Syntax.Parser Syntax.ValueProofs Syntax.ParserProofs Syntax.ParserProofs2.
 Import ListNotations.
 
 (* type expressions: whatever locations the tokens carry (any layout), the tokens of a written type expression -- primitives,
@@ -11,6 +11,47 @@ Theorem C02_type_expression_read_back : forall t pts, written t pts -> forall fu
   (length pts < fuel)%nat -> ~ next_is TkQuestion rest -> ~ next_is TkDColon rest ->
   p_typeref fuel (mkps (pts ++ rest) le last dg) = POk_ t (mkps rest le (last_end pts last) dg).
 Proof. exact typeref_written. Qed.
+(* whole files: for arbitrary token locations, the tokens of a written file -- module declaration with attributes, then struct
+   definitions with doc comment lines and attributes in any order, compact marker, fields with tags, optional commas between
+   them, attributes with identifier and (escaped) string arguments, attributed type expressions of any depth -- are read back
+   as exactly that file: everything in source order, nothing else, no diagnostic.  (`written_file` and the relations it is built
+   from, in Syntax/ParserProofs2.v, say which tokens spell which element.) *)
+Theorem C02_file_read_back : forall f pts, written_file f pts -> forall start,
+  p_file (S (S (length pts))) (mkps pts None start []) = POk_ f (mkps [] None (last_end pts start) []).
+Proof. exact file_written. Qed.
+(* members (fields and parameters: prelude, tag, name, stream marker, attributed type) and member lists whatever commas are written *)
+Theorem C02_member_read_back : forall ip m pts, written_member ip m pts -> forall fuel rest le last dg, (length pts < fuel)%nat ->
+  ~ next_is TkQuestion rest -> ~ next_is TkDColon rest ->
+  p_member ip fuel (mkps (pts ++ rest) le last dg) = POk_ m (mkps rest le (last_end pts last) dg).
+Proof. exact member_written. Qed.
+Theorem C02_member_list_read_back : forall ip ms pts, written_members ip ms pts -> forall fuel rest le last dg, (S (length pts) < fuel)%nat ->
+  starts_member (mkps rest le last dg) = false -> safe_follow rest -> ~ next_is TkComma rest ->
+  p_members ip fuel (mkps (pts ++ rest) le last dg) = POk_ ms (mkps rest le (last_end pts last) dg).
+Proof. exact members_written. Qed.
+(* attributes: directive (scoped, keywords allowed) and arguments, identifiers verbatim and strings unescaped *)
+Theorem C02_attribute_read_back : forall a pts, written_attr a pts -> forall fuel rest le last dg, (length pts < fuel)%nat ->
+  ~ next_is TkDColon rest -> ~ next_is TkLParen rest ->
+  p_attribute fuel (mkps (pts ++ rest) le last dg) = POk_ a (mkps rest le (last_end pts last) dg).
+Proof. exact attr_written. Qed.
+(* type expressions carrying attributes, at any depth *)
+Theorem C02_attributed_type_read_back : forall t pts, writtenA t pts -> forall fuel rest le last dg, (length pts < fuel)%nat ->
+  ~ next_is TkQuestion rest -> ~ next_is TkDColon rest ->
+  p_typeref fuel (mkps (pts ++ rest) le last dg) = POk_ t (mkps rest le (last_end pts last) dg).
+Proof. exact typerefA_written. Qed.
+(* layout: a text made of the spellings of a token sequence with blanks -- white space of any kind, line breaks, CRLF, line
+   comments, block comments -- before, between and after them (`rendered`; a separator is required only where two spellings
+   would fuse: between words, before a second bracket, colon or `>`, after a doc comment; a backslash-escaped word is always an
+   identifier; inside brackets every word is an identifier) is lexed to exactly that token sequence, whatever the layout *)
+Theorem C02_layout_independent : forall a ts text a', rendered a ts text a' -> forall fuel cur, (length text < fuel)%nat ->
+  kinds_of (lex_block fuel a cur text) = (ts, None, a').
+Proof. exact layout_independent. Qed.
+Theorem C02_blanks_change_nothing : forall b, blank b -> forall fuel attr cur s, (length (b ++ s) < fuel)%nat ->
+  exists cur', kinds_of (lex_block fuel attr cur (b ++ s)) = kinds_of (lex_block fuel attr cur' s).
+Proof. exact blank_skipped. Qed.
+Theorem C02_token_kinds_independent_of_position : forall fuel attr c1 c2 s, kinds_of (lex_block fuel attr c1 s) = kinds_of (lex_block fuel attr c2 s).
+Proof. exact token_kinds_independent_of_start. Qed.
+Example C02_rendered_inhabited : rendered false [TkKw KwStruct; TkIdent [83%N]] ([32%N] ++ [115; 116; 114; 117; 99; 116]%N ++ ([47; 42; 42; 47]%N ++ [83%N] ++ [])) false.
+Proof. exact ex_rendered. Qed.
 (* string arguments: every escape choice reads back to the text that was meant, and the lexer stops at the closing quote *)
 Theorem C02_string_argument_roundtrip : forall choice s rest, forallb (fun c => negb (c =? 10)%N) s = true ->
   exists raw, scan_string false (escape choice s ++ 34%N :: rest) [] = inl (raw, rest) /\ unescape false raw = s.
@@ -34,3 +75,6 @@ Proof. exact attribute_mode_words. Qed.
 
 Example C02_example : parse_int [48; 120; 95; 102; 70]%N = (IntOk 255%Z, 16%N).
 Proof. vm_compute. reflexivity. Qed.
+(* non-vacuity of the read-back theorems: the nine tokens of `module M  struct S { a: int32 }` spell a file *)
+Example C02_written_file_inhabited : exists f, written_file f ex_tokens.
+Proof. exact ex_written. Qed.
